@@ -279,11 +279,11 @@ Qed.
 Theorem e_flag c w fid rs :
   has_input c = true -> c_exit_status c = true ->
   usable_formats c = Some fid -> expected c w = Some rs -> all_encoded fid (c_nul c) rs = true ->
-  (o_exit (run c w) = 1%N <-> Forall (fun r => null_or_literal_false (r_node r) = true) rs).
+  (o_exit (run c w) = 1%N <-> Forall (fun r => not_a_match (r_node r) = true) rs).
 Proof.
   intros Hin He Ef Er Henc. pose proof (run_cases c w Hin) as H. rewrite Ef, Er, Henc, He in H. cbn [andb] in H.
-  assert (Hm : negb (matched rs) = true <-> Forall (fun r => null_or_literal_false (r_node r) = true) rs).
-  { unfold matched, null_or_literal_false. clear. induction rs as [|r rs IH]; cbn.
+  assert (Hm : negb (matched rs) = true <-> Forall (fun r => not_a_match (r_node r) = true) rs).
+  { unfold matched, not_a_match. clear. induction rs as [|r rs IH]; cbn.
     - split; [constructor | reflexivity].
     - rewrite negb_orb, andb_true_iff, IH. split.
       + intros [H1 H2]. constructor; assumption.
@@ -352,4 +352,37 @@ Proof.
   destruct n as [|c n]; [contradiction|].
   destruct (format_from_string (c :: n)) as [g|]; [|discriminate H].
   exists g. split; [reflexivity | apply N.eqb_eq; exact H].
+Qed.
+
+(* csv / tsv: a header that cannot be written is an error, never an empty success *)
+Lemma csv_header_error nul l rest :
+  csv_row_ok (map_keys (NMap l)) = false ->
+  enc_class id_CSVFormat nul (NSeq (NMap l :: rest)) = EncErr /\
+  enc_class id_TSVFormat nul (NSeq (NMap l :: rest)) = EncErr.
+Proof.
+  intro H. unfold enc_class. cbn [N.eqb Pos.eqb id_CSVFormat id_TSVFormat orb].
+  unfold csv_class. rewrite H. cbn [negb]. split; reflexivity.
+Qed.
+
+Lemma nul_same_class fid n : enc_class fid true n = enc_class fid false n.
+Proof. reflexivity. Qed.
+
+(* the implemented -e rule is the documented one on well-spelled booleans *)
+Lemma e_rule_agrees n : bool_well_spelled n = true -> not_a_match n = null_or_false n.
+Proof.
+  destruct n as [t v| |]; try reflexivity. destruct t; try reflexivity.
+  unfold bool_well_spelled, not_a_match, null_or_false, counts_as_match, yaml_false, yaml_true.
+  intro H. repeat (apply orb_true_iff in H as [H|H]); try (apply str_eqb_eq in H; subst v; vm_compute; reflexivity).
+Qed.
+
+Theorem e_flag_documented c w fid rs :
+  has_input c = true -> c_exit_status c = true ->
+  usable_formats c = Some fid -> expected c w = Some rs -> all_encoded fid (c_nul c) rs = true ->
+  Forall (fun r => bool_well_spelled (r_node r) = true) rs ->
+  (o_exit (run c w) = 1%N <-> Forall (fun r => null_or_false (r_node r) = true) rs).
+Proof.
+  intros Hin He Ef Er Henc Hw. rewrite (e_flag c w fid rs Hin He Ef Er Henc).
+  rewrite !Forall_forall in *. split; intros H r Hr; specialize (H r Hr); specialize (Hw r Hr).
+  - rewrite <- (e_rule_agrees _ Hw). exact H.
+  - rewrite (e_rule_agrees _ Hw). exact H.
 Qed.
